@@ -127,6 +127,7 @@ struct PacketRecipe
     uint16_t vendorId{0};
     uint8_t flags{0};
     uint8_t viaApi{0};
+    uint8_t emptyPayload{0};  // generic only: 1 = a payload object of zero bytes (C09 / C10; the round-trip properties exclude it)
 
     void io(Ar& a)
     {
@@ -140,6 +141,7 @@ struct PacketRecipe
         a.num("vendorId", vendorId);
         a.num("flags", flags);
         a.num("viaApi", viaApi);
+        a.optionalNum("emptyPayload", emptyPayload);
     }
 
     uint8_t messageType() const
@@ -355,7 +357,7 @@ inline RecipeFields deriveFields(const PacketRecipe& r)
             break;
         }
         default:
-            f.data = fillBytes(s ^ 0x77, std::max<uint32_t>(1, std::min<uint32_t>(r.len, 65535)));
+            f.data = fillBytes(s ^ 0x77, r.emptyPayload ? 0u : std::max<uint32_t>(1, std::min<uint32_t>(r.len, 65535)));
             break;
     }
     return f;
